@@ -21,6 +21,7 @@ def symTok : Sym A → Tok
   | .dot => .dot
   | .lpar => .lpar
   | .rpar => .rpar
+  | .ring n => .cyc n
 
 def toToks (l : List (Sym A)) : List Tok := l.map symTok
 
